@@ -112,6 +112,7 @@ WellFormedAt(f, i, par) ==
   /\ l.t = "cont" => /\ i > 1 /\ Class(par.delim) \in {"NONBLANK", "BLANK"}
                      /\ (f[i-1].t = "cont" \/ (f[i-1].t = "entry" /\ ~f[i-1].q))
   /\ l.t = "entry" => Class(par.delim) # "NONE"
+  /\ l.t = "entry" /\ par.python => l.ind = <<>>      \* PYTHON_STYLE: an indented line is a continuation
   /\ l.t = "keyonly" => Class(par.delim) = "NONE"
 WellFormed(f, par) == \A i \in 1..Len(f) : WellFormedAt(f, i, par)
 
@@ -141,7 +142,7 @@ AbsOk(l, par) ==
     [] l.t = "comment" -> AllBlank(l.ind) /\ Len(l.tcc) = 1 /\ InStr(l.tcc[1], C) /\ Printable(l.tct)
     [] l.t = "header"  -> /\ AllBlank(l.ind) /\ AllBlank(l.tw) /\ l.key # <<>> /\ Printable(l.key) /\ NoOuterBlank(l.key)
                           /\ NoneOf(l.key, C \o <<LBR, RBR, QUOTE, TAB>>)
-    [] l.t = "entry"   -> /\ cl # "NONE" /\ AllBlank(l.ind) /\ AllBlank(l.tw)
+    [] l.t = "entry"   -> /\ cl # "NONE" /\ AllBlank(l.ind) /\ AllBlank(l.tw) /\ (par.python => l.ind = <<>>)
                           /\ l.key # <<>> /\ Printable(l.key) /\ NoneOf(l.key, D \o C \o <<SP, TAB, QUOTE, LBR, RBR>>)
                           /\ SepOk(l.sep, D) /\ Printable(l.val) /\ TcOk(l, par)
                           /\ (~l.q => /\ NoOuterBlank(l.val) /\ (l.val # <<>> => l.val[1] # QUOTE)
